@@ -1,4 +1,5 @@
 import LncModel.Stack
+import LncModel.Props.C02Honest
 import LncModel.Props.C01
 import LncModel.Props.C14
 import LncModel.Props.C15
@@ -90,6 +91,13 @@ theorem relay_sees_only_ciphertext (R dir : Nat) (c : Cipher.CS) (recs : List By
 theorem records_prefix (recs : List Bytes) (fuel dir : Nat) (wire : List Record.SByte) :
     (Record.oks (Record.readLoop recs fuel ⟨dir, 0, false⟩ wire)).filterMap (fun j => recs[j]?) <+: recs :=
   Lnc.Props.C02.C02_plaintext_prefix recs fuel dir wire
+
+/-- … and all of them, in order, when the bytes that arrive are the bytes that
+    were sent (which `transport_stream_complete` provides once the transfer has
+    drained): the record layer then hands out every record written -/
+theorem records_complete (recs : List Bytes) (dir fuel : Nat) (hfuel : recs.length ≤ fuel) :
+    Record.oks (Record.readLoop recs fuel ⟨dir, 0, false⟩ (Lnc.Props.C02.honestFrom dir 0 recs)) = List.range recs.length :=
+  Lnc.Props.C02.C02_honest_complete recs dir fuel hfuel
 
 /-! non-vacuity: two connKit writes, the second one only partly delivered yet -/
 example : (kitRead ((packetsOf [[1, 2, 3], [4, 5]]).take 1) [2, 2, 2]).1 = [[1, 2], [3]] := by decide
